@@ -2,6 +2,7 @@ package languages
 
 import (
 	"fmt"
+	"sort"
 	"strings"
 
 	"github.com/grafana/cog/internal/ast"
@@ -170,8 +171,12 @@ func (generator *ConverterGenerator) FromBuilder(context Context, builder ast.Bu
 		return generator.convertOption(context, converter, option)
 	})
 
-	for _, opts := range generator.listOfDisjunctionOptions {
-		converter.Mappings = append(converter.Mappings, generator.convertListOfDisjunctionOptions(context, converter, opts))
+	// the order of the mappings must not depend on map iteration order
+	disjunctionPaths := tools.Keys(generator.listOfDisjunctionOptions)
+	sort.Strings(disjunctionPaths)
+
+	for _, path := range disjunctionPaths {
+		converter.Mappings = append(converter.Mappings, generator.convertListOfDisjunctionOptions(context, converter, generator.listOfDisjunctionOptions[path]))
 	}
 
 	converter.Mappings = tools.Filter(converter.Mappings, func(mapping ConversionMapping) bool {
